@@ -31,6 +31,7 @@ def run(chk):
              "loop enclosing the call: no new vertex inherits the z a variable kept from an earlier iteration")
     chk.rule("Z.carry", "[USINGZ] conversion layer (ScalePath(s), BuildPath64/D, PolyPath64/D, C export converters): a vertex built from the x and y of one "
              "source vertex has a z argument - converted, scaled or copied vertices keep their z")
+    chk.rule("ZCB.preserved", "[USINGZ] no Clipper64::Execute overload (callees included) writes zCallback_: the callback the user installed is still installed at the next Execute")
     chk.rule("Z.split", "DoSplitOp: zCallback_ is invoked on ip before ip is stored into an OutPt")
     chk.rule("Z.setz-table", "SetZ: ip equal to an end point takes its z (subject edge first), else DefaultZ; callback gets subject before clip")
     for b, z in pairs:
@@ -40,6 +41,13 @@ def run(chk):
         e7.rule_split(dz, chk, z)
         e7.rule_setz_table(dz, chk, z)
         e7.rule_zcb_rebound(dz, chk, z)
+        # the user's callback stays installed: no Execute (nor what it calls - CleanUp, Reset) writes Clipper64's zCallback_
+        from ..engines import e2_state as _e2z
+        from .c12 import BASE as _BASE
+        _engz = _e2z.E2(dz, chk, z, ["ClipperBase", "Clipper64"])
+        _nz = _e2z.rule_config_preserved(_engz, chk, z, dz.find("Clipper64::Execute"), _BASE, {}, rule="ZCB.preserved", only={"zCallback_"})
+        if _nz < 4:
+            raise AnalysisBroken("ZCB.preserved: zCallback_ is not among the configuration members of Clipper64 in %s" % z)
         e7.rule_out_point_fresh(dz, chk, z)
         e7.rule_no_whole_then_part(dz, chk, z)
         if e7.rule_z_carry(dz, chk, z) < 3:
